@@ -1,7 +1,47 @@
 // drv_kernel: one case per line: 12 hex doubles p a b c -> "dist u v w" from the real kernel
 #include "drv_common.hpp"
+#include <array>
 #include "contact_model_abstract.hpp"
-int main(){
+#include <omp.h>
+#include <cstring>
+#include <vector>
+// `drv_kernel mt <threads> <reps>`: all cases are read first and evaluated one after another; then every case is evaluated again
+// from <threads> threads at once, <reps> times, and compared bit for bit with its sequential result (the kernel is called from
+// the parallel loops of every contact model); finally each result is held by reference across the next call.
+static int many_threads(int threads, int reps){
+    std::vector<std::array<double,12>> cs; std::string line;
+    while (std::getline(std::cin, line)){ if (line.empty()) continue; std::istringstream in(line); std::array<double,12> x; for (int i=0;i<12;i++) x[i]=rd(in); cs.push_back(x); }
+    auto call = [&](size_t i){ const auto& x = cs[i]; std::pair<double, vec3> r = contact_model_abstract::compute_node_triangle_distance(vec3(x[0],x[1],x[2]), vec3(x[3],x[4],x[5]), vec3(x[6],x[7],x[8]), vec3(x[9],x[10],x[11])); return std::array<double,4>{r.first, r.second.dx(), r.second.dy(), r.second.dz()}; };
+    std::vector<std::array<double,4>> seq(cs.size());
+    for (size_t i = 0; i < cs.size(); i++) seq[i] = call(i);
+    long long bad = 0; long long first = -1; std::array<double,4> got{};
+    omp_set_num_threads(threads);
+    for (int r = 0; r < reps; r++){
+        #pragma omp parallel for schedule(static)
+        for (size_t i = 0; i < cs.size(); i++){
+            std::array<double,4> v = call(i);
+            if (std::memcmp(v.data(), seq[i].data(), sizeof(double)*4) != 0){
+                #pragma omp critical
+                { bad++; if (first < 0){ first = (long long)i; got = v; } }
+            }
+        }
+    }
+    std::cout << "MT mismatches=" << bad << " first=" << first;
+    if (first >= 0) std::cout << " got=" << hx(got[0]) << "," << hx(got[1]) << "," << hx(got[2]) << "," << hx(got[3]) << " sequential=" << hx(seq[first][0]) << "," << hx(seq[first][1]) << "," << hx(seq[first][2]) << "," << hx(seq[first][3]);
+    std::cout << "\n";
+    long long hbad = 0, hfirst = -1;
+    for (size_t i = 0; i + 1 < cs.size(); i++){
+        const auto& x = cs[i]; const auto& y = cs[i+1];
+        const auto& r1 = contact_model_abstract::compute_node_triangle_distance(vec3(x[0],x[1],x[2]), vec3(x[3],x[4],x[5]), vec3(x[6],x[7],x[8]), vec3(x[9],x[10],x[11]));
+        const auto& r2 = contact_model_abstract::compute_node_triangle_distance(vec3(y[0],y[1],y[2]), vec3(y[3],y[4],y[5]), vec3(y[6],y[7],y[8]), vec3(y[9],y[10],y[11]));
+        std::array<double,4> v{r1.first, r1.second.dx(), r1.second.dy(), r1.second.dz()}; (void)r2;
+        if (std::memcmp(v.data(), seq[i].data(), sizeof(double)*4) != 0){ hbad++; if (hfirst < 0) hfirst = (long long)i; }
+    }
+    std::cout << "HELD mismatches=" << hbad << " first=" << hfirst << "\n";
+    return 0;
+}
+int main(int argc, char** argv){
+    if (argc >= 4 && std::string(argv[1]) == "mt") return many_threads(std::atoi(argv[2]), std::atoi(argv[3]));
     std::string line;
     while (std::getline(std::cin, line)){
         if (line.empty()) continue;
